@@ -88,6 +88,8 @@ def pieces_of(a):
         return [('nat', a[1], a[2])]
     if a[0] == 'inst':
         return [('inst',)]
+    if a[0] == 'intOneOf':
+        return [('oneOf', tuple(str(n) for n in a[1]))]
     return [('any',)]
 
 
@@ -109,9 +111,41 @@ def str_choices(a):
     return None
 
 
+def nat_choices(a):
+    """AVal.natChoices: a bounded int description as the finite list of naturals it stands for"""
+    if a[0] == 'int' and a[2] is not None:
+        return list(range(a[1], max(a[2], a[1])))          # List.range' lo (hi - lo), Nat subtraction
+    if a[0] == 'intOneOf':
+        return list(a[1])
+    return None
+
+
+def nat_union(x, y):
+    return list(x) + [n for n in y if n not in x]
+
+
+def nat_hull(u):
+    lo = min(u) if u else 0                                # u.foldl min (u.headD 0)
+    hi = max(list(u) + [0]) + 1                            # u.foldl max 0 + 1
+    return a_int(lo, hi)
+
+
+def join_nats(x, y):
+    u = nat_union(x, y)
+    h = nat_hull(u)
+    if len(u) == max(h[2] - h[1], 0):
+        return h
+    if len(u) <= 64:
+        return ('intOneOf', tuple(u))
+    return h
+
+
 def join(a, b):
     if a == b:
         return a
+    x, y = nat_choices(a), nat_choices(b)
+    if x is not None and y is not None:
+        return join_nats(x, y)
     if a[0] == 'int' and b[0] == 'int':
         return a_int(min(a[1], b[1]), opt_max(a[2], b[2]))
     x, y = str_choices(a), str_choices(b)
